@@ -9,9 +9,6 @@ from rules import props  # noqa: E402
 
 NA = {
     "C10": "shortest-round-trip float formatting and literal-preserving decimal rewriting are numerical results over all doubles/literals; no structural clause that would not also fire on correct code (jq mode intentionally prints 17 significant digits)",
-    "C14": "equality of loaded trees over a combinatorial YAML presentation space, implemented by a 7000-line context-sensitive parser; no clause of it is visible in code shape (recursion bound and kernels are covered under C19/C16)",
-    "C21": "cursor arithmetic over rank/select results on runtime text; the anchored mechanisms (row-end detection, duplicate-stable select) are value computations with no structural invariant to check",
-    "C22": "a round-trip equality over runtime strings composed through the CLI; the only static residue (both sides use the quote char and doubling) is a constant comparison too weak to claim the property through",
     "C24": "the oracle is an external binary's (jq 1.7.1) behaviour, not present as source; static analysis of one implementation cannot compare it with another",
     "C25": "algebraic identities between builtins over all JSON values are semantic equalities of ~50k lines of interpreter; no shape-level clause",
     "C26": "equality of outputs across two parsers; the only structural candidate (who may read the json_sourced flag) has no exact boundary in this code because number canonicalisation legitimately reads it on print paths, so it would be a brittle proxy",
